@@ -122,6 +122,19 @@ func c19Key(buf []byte, b *z.Bloom, S uint16) []byte {
 		}
 	}
 	buf = binary.LittleEndian.AppendUint16(buf, S)
+	// ElemNum is a public counter the current code never reads, but code MAY branch on it (a
+	// seeded "Clear does nothing when ElemNum == 0" change was hidden by leaving it out of the
+	// key: a filter restored from JSON has ElemNum 0 with a populated bitset). Keeping the exact
+	// value would make every Add a new state; the classes {0, 1..setLocs, more} separate "never
+	// added to", "one Add" and "several Adds".
+	cls := uint8(2)
+	switch {
+	case b.ElemNum == 0:
+		cls = 0
+	case b.ElemNum <= p[2]: // at most one Add (setLocs increments)
+		cls = 1
+	}
+	buf = append(buf, cls)
 	return buf
 }
 
@@ -530,7 +543,7 @@ func c19(tier string, r *ev.Run, replay string) {
 	r.Cov["rule"] = fmt.Sprintf("BFS on the real z.Bloom: for each of %d parameterisations (entries %v x locations %v, entries x rate %v), every sequence up to depth %d over {Add(h), AddIfNotHas(h) for the 16 hashes {high part 0,1,all-ones,mid} x {low part 0,1,all-ones,mid}, Clear, JSON round trip}; state = private parameters + bitset + model set; each transition is one real call sequence on an exact deep copy; traces_validated_against_impl counts transitions (every one runs the real code)", len(cfgs), entries, locs, rates, depth)
 	r.Assume = []string{
 		"hashes are abstracted to their high and low parts as split by the filter itself; bits between the two parts (when 2*sizeExp < 64) are ignored by the filter and left zero",
-		"ElemNum (a public counter the filter never reads) is not part of the state",
+		"ElemNum (a public counter the filter never reads) enters the state key only through the classes {0, small, larger}",
 		"deep copy of the live filter (export/z/bloom.go) is exact; every violation is additionally reproduced from a fresh filter before it is reported",
 	}
 }
